@@ -50,28 +50,41 @@ def insBefore (ref n : Nat) : List Nat → List Nat
   | [] => []
   | x :: xs => if x = ref then n :: x :: xs else x :: insBefore ref n xs
 
-/-- operations of a list client; positions `i` address the `i`-th element of the current list -/
+/-- operations of a list client (the harness protocol): every insertion creates a fresh node carrying value `v`;
+`insertAfter ref v` / `insertBefore ref v` / `unlink v` address a member by its VALUE -/
 inductive LOp where
   | append (v : Nat)
   | prepend (v : Nat)
-  | insertAfter (i v : Nat)
-  | insertBefore (i v : Nat)
-  | unlink (i : Nat)
+  | insertAfter (ref v : Nat)
+  | insertBefore (ref v : Nat)
+  | unlink (v : Nat)
   | popFirst
   | pop
 
-/-- textbook step on the list of VALUES; operations whose precondition fails (position out of range, pop on an
-empty list) are skipped -/
+/-- textbook step on the list of VALUES; an operation whose precondition fails (unknown `ref`, unknown value, pop on
+an empty list) is a no-op (`insAfter`/`insBefore`/`erase`/`tail`/`dropLast` already behave like that) -/
 def lStep (vs : List Nat) : LOp → List Nat
   | .append v => vs ++ [v]
   | .prepend v => v :: vs
-  | .insertAfter i v => if i < vs.length then vs.take (i + 1) ++ v :: vs.drop (i + 1) else vs
-  | .insertBefore i v => if i < vs.length then vs.take i ++ v :: vs.drop i else vs
-  | .unlink i => vs.eraseIdx i
+  | .insertAfter ref v => insAfter ref v vs
+  | .insertBefore ref v => insBefore ref v vs
+  | .unlink v => vs.erase v
   | .popFirst => vs.tail
   | .pop => vs.dropLast
 
 def runList (vs : List Nat) (ops : List LOp) : List Nat := ops.foldl lStep vs
+
+/-- client protocol: inserted values are fresh (values identify nodes) -/
+def lOk (vs : List Nat) : LOp → Prop
+  | .append v => v ∉ vs
+  | .prepend v => v ∉ vs
+  | .insertAfter _ v => v ∉ vs
+  | .insertBefore _ v => v ∉ vs
+  | _ => True
+
+def LValid (vs : List Nat) : List LOp → Prop
+  | [] => True
+  | op :: ops => lOk vs op ∧ LValid (lStep vs op) ops
 
 /-! ### ArenaPool = stack of released locations -/
 
